@@ -503,12 +503,19 @@ func (ec *evalCtx) specCall(call *ast.CallExpr) Value {
 		}
 		t := ec.e().evalTypeExpr(ec.pkg, ec.typePos(), call.Args[1])
 		return Eq(iv.Tag, Int(ec.e().typeTag(types.TypeString(t, nil))))
-	case "held":
+	case "held", "xheld":
+		// held(mu): this goroutine holds mu (exclusively or shared); xheld(mu): exclusively
 		need(1)
-		if v, ok := ec.st.ghost["lock:"+exprString(call.Args[0])].(*Term); ok {
-			return v
+		get := func(k string) *Term {
+			if v, ok := ec.st.ghost[k+exprString(call.Args[0])].(*Term); ok {
+				return v
+			}
+			return False
 		}
-		return False
+		if name == "xheld" {
+			return get("lock:")
+		}
+		return Or(get("lock:"), get("rlock:"))
 	case "itoa":
 		need(1)
 		return itoaModel(ec, scalar(arg(0)))
